@@ -732,3 +732,137 @@ Proof.
   - intros j Hj; idx j; mat_entry; split; ring.
   - intros. split; reflexivity.
 Qed.
+
+(** * Part C: correct_pva is linearised by the output transform (C05 b) *)
+
+Definition vec9 (x0 x1 x2 x3 x4 x5 x6 x7 x8 : R) (k : nat) : R :=
+  match k with 0%nat => x0 | 1%nat => x1 | 2%nat => x2 | 3%nat => x3 | 4%nat => x4 | 5%nat => x5
+             | 6%nat => x6 | 7%nat => x7 | 8%nat => x8 | _ => 0 end.
+Definition vec7 (x0 x1 x2 x3 x4 x5 x6 : R) (k : nat) : R :=
+  match k with 0%nat => x0 | 1%nat => x1 | 2%nat => x2 | 3%nat => x3 | 4%nat => x4 | 5%nat => x5
+             | 6%nat => x6 | _ => 0 end.
+
+(** a component [f] of correct_pva (3D: 9 states, 2D: 7 states) along the ray  e |-> e * x *)
+Definition along3 (f : R -> R -> R -> R -> R -> R -> R -> R -> R -> R -> R -> R -> R -> R -> R -> R -> R -> R -> R)
+  (lat lon alt VN VE VD roll pitch heading x0 x1 x2 x3 x4 x5 x6 x7 x8 e : R) : R :=
+  f lat lon alt VN VE VD roll pitch heading (e * x0) (e * x1) (e * x2) (e * x3) (e * x4) (e * x5)
+    (e * x6) (e * x7) (e * x8).
+Definition along2 (f : R -> R -> R -> R -> R -> R -> R -> R -> R -> R -> R -> R -> R -> R -> R -> R -> R)
+  (lat lon alt VN VE VD roll pitch heading x0 x1 x2 x3 x4 x5 x6 e : R) : R :=
+  f lat lon alt VN VE VD roll pitch heading (e * x0) (e * x1) (e * x2) (e * x3) (e * x4) (e * x5) (e * x6).
+
+(** component [d] of compute_state_difference(pva, correct_pva(pva, e * x)) *)
+Definition diff_after_correct3
+  (d : R -> R -> R -> R -> R -> R -> R -> R -> R -> R -> R -> R -> R -> R -> R -> R -> R -> R -> R)
+  (lat lon alt VN VE VD roll pitch heading x0 x1 x2 x3 x4 x5 x6 x7 x8 e : R) : R :=
+  d lat lon alt VN VE VD roll pitch heading
+    (along3 correct3d_lat lat lon alt VN VE VD roll pitch heading x0 x1 x2 x3 x4 x5 x6 x7 x8 e)
+    (along3 correct3d_lon lat lon alt VN VE VD roll pitch heading x0 x1 x2 x3 x4 x5 x6 x7 x8 e)
+    (along3 correct3d_alt lat lon alt VN VE VD roll pitch heading x0 x1 x2 x3 x4 x5 x6 x7 x8 e)
+    (along3 correct3d_VN lat lon alt VN VE VD roll pitch heading x0 x1 x2 x3 x4 x5 x6 x7 x8 e)
+    (along3 correct3d_VE lat lon alt VN VE VD roll pitch heading x0 x1 x2 x3 x4 x5 x6 x7 x8 e)
+    (along3 correct3d_VD lat lon alt VN VE VD roll pitch heading x0 x1 x2 x3 x4 x5 x6 x7 x8 e)
+    (along3 correct3d_roll lat lon alt VN VE VD roll pitch heading x0 x1 x2 x3 x4 x5 x6 x7 x8 e)
+    (along3 correct3d_pitch lat lon alt VN VE VD roll pitch heading x0 x1 x2 x3 x4 x5 x6 x7 x8 e)
+    (along3 correct3d_heading lat lon alt VN VE VD roll pitch heading x0 x1 x2 x3 x4 x5 x6 x7 x8 e).
+Definition diff_after_correct2
+  (d : R -> R -> R -> R -> R -> R -> R -> R -> R -> R -> R -> R -> R -> R -> R -> R -> R -> R -> R)
+  (lat lon alt VN VE VD roll pitch heading x0 x1 x2 x3 x4 x5 x6 e : R) : R :=
+  d lat lon alt VN VE VD roll pitch heading
+    (along2 correct2d_lat lat lon alt VN VE VD roll pitch heading x0 x1 x2 x3 x4 x5 x6 e)
+    (along2 correct2d_lon lat lon alt VN VE VD roll pitch heading x0 x1 x2 x3 x4 x5 x6 e)
+    (along2 correct2d_alt lat lon alt VN VE VD roll pitch heading x0 x1 x2 x3 x4 x5 x6 e)
+    (along2 correct2d_VN lat lon alt VN VE VD roll pitch heading x0 x1 x2 x3 x4 x5 x6 e)
+    (along2 correct2d_VE lat lon alt VN VE VD roll pitch heading x0 x1 x2 x3 x4 x5 x6 e)
+    (along2 correct2d_VD lat lon alt VN VE VD roll pitch heading x0 x1 x2 x3 x4 x5 x6 e)
+    (along2 correct2d_roll lat lon alt VN VE VD roll pitch heading x0 x1 x2 x3 x4 x5 x6 e)
+    (along2 correct2d_pitch lat lon alt VN VE VD roll pitch heading x0 x1 x2 x3 x4 x5 x6 e)
+    (along2 correct2d_heading lat lon alt VN VE VD roll pitch heading x0 x1 x2 x3 x4 x5 x6 e).
+
+Lemma rotvec_at0 a b c :
+  rotvec_m00 (0 * a) (0 * b) (0 * c) = 1 /\ rotvec_m01 (0 * a) (0 * b) (0 * c) = 0 /\
+  rotvec_m02 (0 * a) (0 * b) (0 * c) = 0 /\ rotvec_m10 (0 * a) (0 * b) (0 * c) = 0 /\
+  rotvec_m11 (0 * a) (0 * b) (0 * c) = 1 /\ rotvec_m12 (0 * a) (0 * b) (0 * c) = 0 /\
+  rotvec_m20 (0 * a) (0 * b) (0 * c) = 0 /\ rotvec_m21 (0 * a) (0 * b) (0 * c) = 0 /\
+  rotvec_m22 (0 * a) (0 * b) (0 * c) = 1.
+Proof.
+  destruct (rotvec_ray a b c 0) as [R00 [R01 [R02 [R10 [R11 [R12 [R20 [R21 R22]]]]]]]].
+  destruct (ray_at0 a b c) as [V00 [V01 [V02 [V10 [V11 [V12 [V20 [V21 V22]]]]]]]].
+  rewrite R00, R01, R02, R10, R11, R12, R20, R21, R22. splits; assumption.
+Qed.
+
+Lemma is_derive_atan2_deg (f g : R -> R) t f' g' l :
+  is_derive f t f' -> is_derive g t g' -> (0 < g t \/ f t <> 0) ->
+  l = (g t * f' - f t * g') / (f t * f t + g t * g t) * (180 / PI) ->
+  is_derive (fun s => atan2 (f s) (g s) * (180 / PI)) t l.
+Proof.
+  intros Hf Hg Ho ->. pose (a := fun s => atan2 (f s) (g s)).
+  assert (Ha : is_derive a t ((g t * f' - f t * g') / (f t * f t + g t * g t)))
+    by exact (is_derive_atan2 f g t f' g' Hf Hg Ho).
+  change (is_derive (fun s => a s * (180 / PI)) t
+    ((g t * f' - f t * g') / (f t * f t + g t * g t) * (180 / PI))).
+  auto_derive; [exists ((g t * f' - f t * g') / (f t * f t + g t * g t)); exact Ha|].
+  derive_val Ha. ring.
+Qed.
+
+(* replace the Rodrigues spec calls along the ray e * (a, b, c) by the closed forms *)
+Ltac to_ray a b c :=
+  eapply is_derive_ext;
+  [ let e := fresh "e" in
+    let R00 := fresh in let R01 := fresh in let R02 := fresh in
+    let R10 := fresh in let R11 := fresh in let R12 := fresh in
+    let R20 := fresh in let R21 := fresh in let R22 := fresh in
+    intro e; cbv beta;
+    destruct (rotvec_ray a b c e) as [R00 [R01 [R02 [R10 [R11 [R12 [R20 [R21 R22]]]]]]]];
+    rewrite ?R00, ?R01, ?R02, ?R10, ?R11, ?R12, ?R20, ?R21, ?R22; reflexivity |].
+
+Ltac ray_facts a b c :=
+  let D00 := fresh "D00" in let D01 := fresh "D01" in let D02 := fresh "D02" in
+  let D10 := fresh "D10" in let D11 := fresh "D11" in let D12 := fresh "D12" in
+  let D20 := fresh "D20" in let D21 := fresh "D21" in let D22 := fresh "D22" in
+  destruct (ray_derive a b c) as [D00 [D01 [D02 [D10 [D11 [D12 [D20 [D21 D22]]]]]]]];
+  let V00 := fresh "V00" in let V01 := fresh "V01" in let V02 := fresh "V02" in
+  let V10 := fresh "V10" in let V11 := fresh "V11" in let V12 := fresh "V12" in
+  let V20 := fresh "V20" in let V21 := fresh "V21" in let V22 := fresh "V22" in
+  destruct (ray_at0 a b c) as [V00 [V01 [V02 [V10 [V11 [V12 [V20 [V21 V22]]]]]]]];
+  let Z00 := fresh "Z00" in let Z01 := fresh "Z01" in let Z02 := fresh "Z02" in
+  let Z10 := fresh "Z10" in let Z11 := fresh "Z11" in let Z12 := fresh "Z12" in
+  let Z20 := fresh "Z20" in let Z21 := fresh "Z21" in let Z22 := fresh "Z22" in
+  destruct (rotvec_at0 a b c) as [Z00 [Z01 [Z02 [Z10 [Z11 [Z12 [Z20 [Z21 Z22]]]]]]]].
+
+(* after auto_derive: discharge the [ex_derive (ray_mij ..) 0] obligations *)
+Ltac ray_ex := splits; try exact I; try (eexists; eassumption).
+
+(* use the recorded values / derivatives of the ray entries in the current goal *)
+Ltac ray_vals :=
+  repeat match goal with
+  | H : is_derive (ray_m00 _ _ _) 0 _ |- _ => derive_val H; clear H
+  | H : is_derive (ray_m01 _ _ _) 0 _ |- _ => derive_val H; clear H
+  | H : is_derive (ray_m02 _ _ _) 0 _ |- _ => derive_val H; clear H
+  | H : is_derive (ray_m10 _ _ _) 0 _ |- _ => derive_val H; clear H
+  | H : is_derive (ray_m11 _ _ _) 0 _ |- _ => derive_val H; clear H
+  | H : is_derive (ray_m12 _ _ _) 0 _ |- _ => derive_val H; clear H
+  | H : is_derive (ray_m20 _ _ _) 0 _ |- _ => derive_val H; clear H
+  | H : is_derive (ray_m21 _ _ _) 0 _ |- _ => derive_val H; clear H
+  | H : is_derive (ray_m22 _ _ _) 0 _ |- _ => derive_val H; clear H
+  end;
+  repeat match goal with
+  | H : ray_m00 _ _ _ 0 = _ |- _ => rewrite ?H; clear H
+  | H : ray_m01 _ _ _ 0 = _ |- _ => rewrite ?H; clear H
+  | H : ray_m02 _ _ _ 0 = _ |- _ => rewrite ?H; clear H
+  | H : ray_m10 _ _ _ 0 = _ |- _ => rewrite ?H; clear H
+  | H : ray_m11 _ _ _ 0 = _ |- _ => rewrite ?H; clear H
+  | H : ray_m12 _ _ _ 0 = _ |- _ => rewrite ?H; clear H
+  | H : ray_m20 _ _ _ 0 = _ |- _ => rewrite ?H; clear H
+  | H : ray_m21 _ _ _ 0 = _ |- _ => rewrite ?H; clear H
+  | H : ray_m22 _ _ _ 0 = _ |- _ => rewrite ?H; clear H
+  | H : rotvec_m00 (0 * _) _ _ = _ |- _ => rewrite ?H; clear H
+  | H : rotvec_m01 (0 * _) _ _ = _ |- _ => rewrite ?H; clear H
+  | H : rotvec_m02 (0 * _) _ _ = _ |- _ => rewrite ?H; clear H
+  | H : rotvec_m10 (0 * _) _ _ = _ |- _ => rewrite ?H; clear H
+  | H : rotvec_m11 (0 * _) _ _ = _ |- _ => rewrite ?H; clear H
+  | H : rotvec_m12 (0 * _) _ _ = _ |- _ => rewrite ?H; clear H
+  | H : rotvec_m20 (0 * _) _ _ = _ |- _ => rewrite ?H; clear H
+  | H : rotvec_m21 (0 * _) _ _ = _ |- _ => rewrite ?H; clear H
+  | H : rotvec_m22 (0 * _) _ _ = _ |- _ => rewrite ?H; clear H
+  end.
